@@ -100,8 +100,11 @@ static uint16_t canon_port(uint32_t ip, uint16_t port);
 static std::string canon_nodes(const char* p, size_t n) {
   std::string raw(p, n);
   for (size_t i = 0; i + 26 <= raw.size(); i += 26) {
-    uint32_t ip = ntohl(*reinterpret_cast<const uint32_t*>(raw.data() + i + 20));
-    uint16_t port = ntohs(*reinterpret_cast<const uint16_t*>(raw.data() + i + 24));
+    uint32_t ipn; uint16_t portn;
+    memcpy(&ipn, raw.data() + i + 20, 4);
+    memcpy(&portn, raw.data() + i + 24, 2);
+    uint32_t ip = ntohl(ipn);
+    uint16_t port = ntohs(portn);
     uint16_t c = htons(canon_port(ip, port));
     memcpy(&raw[i + 24], &c, 2);
   }
@@ -266,9 +269,10 @@ static std::string send_and_collect(DhtRouter* r, uint32_t ip, const std::string
   if (sendto(fd, payload.data(), payload.size(), 0, reinterpret_cast<sockaddr*>(&dst), sizeof dst) != (ssize_t)payload.size())
     throw std::runtime_error("sendto");
   g_rnd.clear();
-  g_rnd.push_back(rnd);
+  long saved_fill = g_fillc;
+  g_fillc = rnd;               // every random() during this datagram: get_peers block choice, ping transaction id
   r->m_server.event_read();
-  g_rnd.clear();
+  g_fillc = saved_fill;
   if (!r->m_server.m_highQueue.empty() || !r->m_server.m_lowQueue.empty())
     r->m_server.event_write();
   std::string out;
